@@ -84,11 +84,11 @@ theorem roleOK_after_text {s : Src} {p1 stop : Nat} {nb : Bool} {term : Terminat
 
 theorem textBytes_of {s : Src} (hcr : NoCR s) {p p1 stop : Nat} {nb : Bool} {term : Termination} {q : Nat}
     (hS : SliceN s p1 stop nb term q) (hsp : ∀ j, p ≤ j → j < p1 → s[j]? = some 32) : TextBytes s p stop := by
-  refine ⟨hS.sz, ?_, ?_⟩
+  refine ⟨hS.sz, ?_, ?_, fun j _ _ h13 => absurd h13 (hcr j)⟩
   · intro j j1 j2
     by_cases hj : j < p1
-    · rw [hsp j j1 hj]; exact ⟨by decide, by decide, by decide⟩
-    · exact ⟨hcr j, hS.nobrace j (by omega) j2⟩
+    · rw [hsp j j1 hj]; exact ⟨by decide, by decide⟩
+    · exact hS.nobrace j (by omega) j2
   · intro j j1 j2
     by_cases hj : j < p1
     · rw [hsp j j1 hj]; decide
